@@ -198,21 +198,34 @@ def parseWindowUpdate (fh : FrameHeader) (p : Bytes) : Except RErr Frame :=
     else .ok (.windowUpdate fh inc)
   | _ => .error (.conn errFrameSize)
 
+/-- the optional pad-length byte of HEADERS / PUSH_PROMISE (`readByte` when PADDED). -/
+def takePad (padded : Bool) (p : Bytes) : Except RErr (Nat × Bytes) :=
+  if padded then
+    match p with
+    | [] => .error .unexpectedEOF
+    | b :: rest => .ok (b.toNat, rest)
+  else .ok (0, p)
+
+/-- the optional 5 priority bytes of HEADERS (`readUint32` + `readByte` when PRIORITY). -/
+def takePrio (has : Bool) (p : Bytes) : Except RErr (Priority × Bytes) :=
+  if has then
+    match p with
+    | a :: b :: c :: d :: w :: rest =>
+      let v := rd32 a b c d
+      .ok ({ streamDep := v % two31, exclusive := decide (v ≠ v % two31), weight := w.toNat }, rest)
+    | _ => .error .unexpectedEOF
+  else .ok (Priority.zero, p)
+
 def parseHeaders (fh : FrameHeader) (p : Bytes) : Except RErr Frame :=
-  if fh.streamID = 0 then .error (.conn errProtocol) else do
-  let (padLength, p) ←
-    if hasFlag fh.flags flagPadded then
-      (do let (b, p) ← readByte p; pure (b.toNat, p))
-    else pure (0, p)
-  let (prio, p) ←
-    if hasFlag fh.flags flagPriority then
-      (do let (v, p) ← readUint32 p
-          let (w, p) ← readByte p
-          pure (({ streamDep := v % two31, exclusive := decide (v ≠ v % two31),
-                   weight := w.toNat } : Priority), p))
-    else pure (Priority.zero, p)
-  if p.length < padLength then .error (.stream fh.streamID errProtocol)
-  else .ok (.headers fh prio (p.take (p.length - padLength)))
+  if fh.streamID = 0 then .error (.conn errProtocol) else
+  match takePad (hasFlag fh.flags flagPadded) p with
+  | .error e => .error e
+  | .ok (padLength, p) =>
+    match takePrio (hasFlag fh.flags flagPriority) p with
+    | .error e => .error e
+    | .ok (prio, p) =>
+      if p.length < padLength then .error (.stream fh.streamID errProtocol)
+      else .ok (.headers fh prio (p.take (p.length - padLength)))
 
 def parsePriority (fh : FrameHeader) (p : Bytes) : Except RErr Frame :=
   if fh.streamID = 0 then .error (.conn errProtocol) else
@@ -234,14 +247,15 @@ def parseContinuation (fh : FrameHeader) (p : Bytes) : Except RErr Frame :=
   if fh.streamID = 0 then .error (.conn errProtocol) else .ok (.continuation fh p)
 
 def parsePushPromise (fh : FrameHeader) (p : Bytes) : Except RErr Frame :=
-  if fh.streamID = 0 then .error (.conn errProtocol) else do
-  let (padLength, p) ←
-    if hasFlag fh.flags flagPadded then
-      (do let (b, p) ← readByte p; pure (b.toNat, p))
-    else pure (0, p)
-  let (pid, p) ← readUint32 p
-  if padLength > p.length then .error (.conn errProtocol)
-  else .ok (.pushPromise fh (pid % two31) (p.take (p.length - padLength)))
+  if fh.streamID = 0 then .error (.conn errProtocol) else
+  match takePad (hasFlag fh.flags flagPadded) p with
+  | .error e => .error e
+  | .ok (padLength, p) =>
+    match p with
+    | a :: b :: c :: d :: p =>
+      if padLength > p.length then .error (.conn errProtocol)
+      else .ok (.pushPromise fh (rd32 a b c d % two31) (p.take (p.length - padLength)))
+    | _ => .error .unexpectedEOF
 
 /-- `typeFrameParser(fh.Type)(…, fh, …, payload)` -/
 def parsePayload (fh : FrameHeader) (payload : Bytes) : Except RErr Frame :=
@@ -284,6 +298,17 @@ def checkFrameOrder (r : Reader) (fh : FrameHeader) : Except RErr Reader :=
     | none => .error (.conn errProtocol)
     | some l => .ok { r with lastHeaderStream := l }
 
+/-- what `ReadFrame` does once the header `fh` and the payload are in hand: typed parser, then
+`checkFrameOrder`; a parse error leaves the reader state untouched. -/
+def afterPayload (r : Reader) (fh : FrameHeader) (payload rest : Bytes) :
+    Except RErr Frame × Reader × Bytes :=
+  match parsePayload fh payload with
+  | .error e => (.error e, r, rest)
+  | .ok f =>
+    match checkFrameOrder r fh with
+    | .error e => (.error e, r, rest)
+    | .ok r' => (.ok f, r', rest)
+
 /-- `Framer.ReadFrame` (raw frames, `ReadMetaHeaders == nil`) on an in-memory reader holding
 `input`. Returns the result, the new reader state and the unread input. -/
 def readFrame (r : Reader) (input : Bytes) : Except RErr Frame × Reader × Bytes :=
@@ -293,15 +318,7 @@ def readFrame (r : Reader) (input : Bytes) : Except RErr Frame × Reader × Byte
     if fh.length > r.maxReadSize then (.error .tooLarge, r, rest)
     else if rest.length < fh.length then
       (.error (if rest.isEmpty then .eof else .unexpectedEOF), r, [])
-    else
-      let payload := rest.take fh.length
-      let rest := rest.drop fh.length
-      match parsePayload fh payload with
-      | .error e => (.error e, r, rest)
-      | .ok f =>
-        match checkFrameOrder r fh with
-        | .error e => (.error e, r, rest)
-        | .ok r' => (.ok f, r', rest)
+    else afterPayload r fh (rest.take fh.length) (rest.drop fh.length)
 
 /-- Repeated `ReadFrame` until a terminal error (`fuel` bounds the number of calls; every
 call that is not terminal consumes at least 9 bytes). -/
